@@ -319,7 +319,18 @@ func runCase(c *hx.Ctx, cfg *config, qs []query, viaCluster bool) {
 		case "raw":
 			kind, qt = "raw", "c:"+pairsTok(q.crit)
 		}
-		c.Emit("C15", kind+" "+ct+" "+qt, "F:"+observe(f, q, len(cfg.hosts))+" P:"+observe(p, q, len(cfg.hosts)))
+		fo, po := observe(f, q, len(cfg.hosts)), observe(p, q, len(cfg.hosts))
+		c.Emit("C15", kind+" "+ct+" "+qt, "F:"+fo+" P:"+po)
+		switch {
+		case fo == "panic" || po == "panic":
+			c.Count("outcome.panic")
+		case strings.HasPrefix(fo, "-:"):
+			c.Count("outcome.no-host")
+		case strings.Count(fo, "+")+1 == len(cfg.hosts):
+			c.Count("outcome.all-hosts")
+		default:
+			c.Count("outcome.proper-subset-of-hosts")
+		}
 	}
 }
 
@@ -697,7 +708,7 @@ func Run(c *hx.Ctx) {
 		runCase(c, cfg, genQueries(c, cfg), false)
 		c.Count("config.boundary")
 	}
-	n := c.N(1500, 12000)
+	n := c.N(1500, 40000)
 	for i := 0; i < n; i++ {
 		size := c.Rng.Intn(9)
 		if c.Rng.Chance(15) {
@@ -718,7 +729,7 @@ func Run(c *hx.Ctx) {
 	// inner-policy variety: the other registered balancers as the subset's inner policy, all hosts healthy (their
 	// health handling is property C05); the observation is compared as "chosen hosts are allowed targets".
 	inner := []string{"LB_RANDOM", "LB_WEIGHTED_ROUNDROBIN", "LB_LEAST_REQUEST", "LB_LEAST_CONNECTION", "LB_REQUEST_ROUNDROBIN", "LB_PEAK_EWMA"}
-	for i := 0; i < c.N(240, 2400); i++ {
+	for i := 0; i < c.N(240, 6000); i++ {
 		cfg := genConfig(c, 1+c.Rng.Intn(8))
 		for j := range cfg.hosts {
 			cfg.hosts[j].healthy = true
@@ -810,12 +821,12 @@ func exhaustiveSmall(c *hx.Ctx) {
 	qs = append(qs, query{kind: "nilcrit"}, query{kind: "nilctx"})
 	dflts := [][]pair{nil, {{"a", "1"}}, {{"b", "2"}}}
 	// the harness processes of a thorough run split the host sets among themselves by seed
-	part, idx := int(c.Seed%4), 0
+	part, idx := int(c.Seed%8), 0
 	var rec func(hs []hostSpec)
 	rec = func(hs []hostSpec) {
 		if len(hs) > 0 {
 			idx++
-			if idx%4 == part {
+			if idx%8 == part {
 				for pat := 0; pat < 2; pat++ {
 					hosts := append([]hostSpec{}, hs...)
 					if pat == 1 {
